@@ -98,7 +98,7 @@ def parse_harness_file(path):
                 continue
             m = re.match(r"//\s*@funcs\s+(.*)", s)
             if m:
-                cur["funcs"] += [x.strip() for x in m.group(1).split(",") if x.strip()]
+                cur["funcs"] += [x.strip() for x in re.split(r",\s*(?![^{]*\})", m.group(1)) if x.strip()]
                 continue
             m = re.match(r"//\s*@(catches|note|assume)\s+(.*)", s)
             if m:
@@ -618,7 +618,7 @@ def write_evidence(prop, tier, seed, sel, results, wall, nviol, known_lines, bui
         })
         if len(samples) < 12:
             samples.append({"obligation": h.name, "bounds": h.bounds,
-                            "asserted": sorted(set(c["description"] for c in r["checks"] if ".cover." not in c["id"]))[:10],
+                            "asserted": sorted(set(c["description"] for c in r["checks"] if ".cover." not in c["id"] and "harness/" in c["location"]))[:12],
                             "witnesses_reached": [c["description"] for c in sat_cov][:6],
                             "result": r["class"]})
     ev = {
